@@ -1,6 +1,7 @@
 package chainsim
 
 import (
+	"strings"
 	"fmt"
 	"os"
 	"testing"
@@ -41,6 +42,7 @@ type runResult struct {
 	nOps   int
 	blocks int
 	prologueBlocks int
+	log            []string
 }
 
 // runChain executes tape on a fresh single-node world; hooks are built by mk.
@@ -100,6 +102,7 @@ func runChainP(tt *testing.T, tr *simkit.Trace, cfg NodeConfig, regime Regime, p
 		res.blocks = len(w.Tips)
 	})
 	res.digest = tr.Digest()
+	res.log = tr.Log
 	return
 }
 
@@ -124,8 +127,14 @@ func drawCase(rt *rapid.T) chainCase {
 	return c
 }
 
+var runSeq int
+
 func recordRun(res runResult, c chainCase) {
 	g := simkit.Global
+	runSeq++
+	if d := os.Getenv("VERIF_TRACEDIR"); d != "" {
+		os.WriteFile(fmt.Sprintf("%s/%04d.log", d, runSeq), []byte(strings.Join(res.log, "\n")+"\n"), 0o644)
+	}
 	g.Inc("runs")
 	g.Add("ops", int64(res.nOps))
 	g.Add("blocks", int64(res.blocks))
